@@ -22,7 +22,9 @@ CFG = {'assumptions': ["64*len(bm) < 2^31 (Go's int32 positions cannot overflow;
         'bitmap.PrevOne/iter': 'loop "for end > i { p := PrevOne(bm,i,end); if p < 0 {break}; out = append(out,p); end '
                                '= p }"',
         'bitmap.PrevOne/sparse': 'bitmap.PrevOne (run-length coded bitmap argument; model = int32 model PrevOne32)',
-        'bitmap.PrevOne/starts': 'bitmap.PrevOne (for every i in [0, min(end, 64*len-1)])'},
+        'bitmap.PrevOne/starts': 'bitmap.PrevOne (for every i in [0, min(end, 64*len-1)])',
+        'bitmap.Slice/walk': 'bitmap.Slice(bm, from, to) then the NextOne walk and the PrevOne walk of the whole '
+                             'result'},
  'rule': 'cases = exhaustive sweeps (every single-bit bitmap of 1..3 words, constant and {bit0,bit63} bitmaps x all '
          '(i,end) of the domain, one sweep line = all ends for one i / all i for one end) + structured bitmaps (1-bits '
          'separated by 0..4 all-zero words, bits at offsets 0 and 63, ranges aimed at 1-bits, word boundaries and '
